@@ -555,6 +555,55 @@ def main():
 
     body_def("levelRefused", "(hasAuth hasPriv fAuth fPriv : Bool) : Bool", level_builder, "false")
 
+    def walk_shape_builder():
+        # Client.multiwalk: roots sorted for the first request; `yielded` is a local of the generator;
+        # one `while unfinished_oids:` loop whose fetch is guarded by `except NoSuchOID: break` and
+        # `except FaultySNMPImplementation` (break only under ERRORS_WARN, else re-raise); every response
+        # goes through group_varbinds -> get_unfinished_walk_oids -> deduped_varbinds(oids, …, yielded)
+        fn = func_ast(RAW.Client.multiwalk)
+        text = ast.unparse(fn)
+        loops = [n for n in ast.walk(fn) if isinstance(n, ast.While)]
+        if len(loops) != 1 or ast.unparse(loops[0].test) != "unfinished_oids":
+            return "false"
+        tries = [n for n in loops[0].body if isinstance(n, ast.Try)]
+        if len(tries) != 1:
+            return "false"
+        hs = {ast.unparse(h.type): h for h in tries[0].handlers if h.type is not None}
+        ok = set(hs) == {"NoSuchOID", "FaultySNMPImplementation"}
+        ok = ok and [ast.unparse(x) for x in hs["NoSuchOID"].body if not isinstance(x, ast.Expr)] == ["break"]
+        f = hs.get("FaultySNMPImplementation")
+        ok = ok and f is not None and ast.unparse(f.body[-1]) == "raise" and any(isinstance(x, ast.If) and "ERRORS_WARN" in ast.unparse(x.test) and ast.unparse(x.body[-1]) == "break" for x in f.body)
+        ok = ok and "yielded: Set[ObjectIdentifier] = set()" in text and "self." + "yielded" not in text and "nonlocal" not in text and "global " not in text
+        ok = ok and text.count("deduped_varbinds(oids, grouped_oids, yielded)") == 2 and text.count("get_unfinished_walk_oids(grouped_oids)") == 2
+        ok = ok and "sorted(oids)" in text
+        return "true" if ok else "false"
+
+    body_def("walkLoopShape", ": Bool", walk_shape_builder, "false")
+
+    def bulk_fetcher_shape_builder():
+        # Client._bulkwalk_fetcher.fetcher: the first request asks for `bulk_size` repetitions; a response
+        # shorter than one repetition is completed by requests for the missing columns with
+        # max-repetitions 1, the loop ending when such a request returns nothing; the per-column
+        # successor check raises FaultySNMPImplementation
+        outer = func_ast(RAW.Client._bulkwalk_fetcher)
+        inner = [n for n in ast.walk(outer) if isinstance(n, ast.AsyncFunctionDef) and n.name == "fetcher"]
+        if len(inner) != 1:
+            return "false"
+        fn = inner[0]
+        text = ast.unparse(fn)
+        loops = [n for n in ast.walk(fn) if isinstance(n, ast.While)]
+        if len(loops) != 1:
+            return "false"
+        body = [ast.unparse(x) for x in loops[0].body]
+        ok = len(body) == 3 and body[0].replace(" ", "") == "missing=awaitself._bulkget_varbinds([],oids[len(varbinds):],max_list_size=1)"
+        ok = ok and body[1].replace("\n", " ").split() == "if not missing: break".split() and body[2] == "varbinds.extend(missing)"
+        ok = ok and ast.unparse(loops[0].test).startswith("0 < len(varbinds) < len(oids) and (not any(")
+        ok = ok and "await self._bulkget_varbinds([], oids, max_list_size=bulk_size)" in text
+        ok = ok and "if not previous[col] < varbind.oid:" in text and "raise FaultySNMPImplementation" in text
+        return "true" if ok else "false"
+
+    body_def("bulkFetcherShape", ": Bool", bulk_fetcher_shape_builder, "false")
+
     # ---- reflected data --------------------------------------------------------------
     def fact(name, typ, builder, stub):
         try:
